@@ -58,6 +58,15 @@ CHECKS = {
         note="Trusted: the Decimal model (cross-checked against the real decimal module on every sampled path by the differential), "
              "float(Decimal) as identity, z3. Binary floats with expansions longer than 9 fractional digits are outside.",
         design="DESIGN.md section 5 C14"),
+    "C13": dict(
+        text="format_characteristic_list + to_status_code, the hand-driven IpPairing.put_characteristics coroutine, the CoAP result "
+             "mappers and CoAPPairing.put_characteristics run symbolically: the request-wide status, or the status of one reply item "
+             "at any position, is an arbitrary integer in +-100000 (so 0, every defined code of either sign and unknown codes are "
+             "covered by the solver), reply shapes are selectors (partial, duplicated, non-dict, id-less entries, 204 vs 207); z3 "
+             "discharges the per-id outcome table and 'listeners told == accepted and readable'. BLE write path not covered.",
+        note="Trusted: stubs for connection/accessories (perms only), Enum lookup through the real enum module, z3. Formatting of "
+             "'Unknown error code: n' is compared on the real library only.",
+        design="DESIGN.md section 5 C13"),
 }
 
 NOT_APPLICABLE = {
